@@ -270,3 +270,281 @@ theorem readItems_enc (cfg : Cfg) (classes : List Bytes) (T : List Lbl)
 end
 
 end Morfuse.Archive
+
+namespace Morfuse.Archive
+
+/-! ### phase 2: `Close` resolves the indices -/
+
+mutual
+/-- non-null pointer targets of a sequence -/
+def ptrTargetsItem : Item → List Lbl
+  | .ptr _ o => if o = 0 then [] else [o]
+  | .object _ _ body => ptrTargets body
+  | _ => []
+def ptrTargets : List Item → List Lbl
+  | [] => []
+  | i :: is => ptrTargetsItem i ++ ptrTargets is
+end
+
+theorem idxOf_inj {T : List Lbl} {a b : Lbl} (ha : a ∈ T) (hb : b ∈ T) (h : T.idxOf a = T.idxOf b) : a = b := by
+  have h1 := List.getElem_idxOf (List.idxOf_lt_length_of_mem ha)
+  have h2 := List.getElem_idxOf (List.idxOf_lt_length_of_mem hb)
+  simp only [h] at h1
+  exact h1.symm.trans h2
+
+theorem foldl_setL_keep (T : List Lbl) (l : Lbl) (hl : l ∈ T) :
+    ∀ (ls : List Lbl) (R : List Lbl), (∀ x ∈ ls, x ∈ T) → R.getD (T.idxOf l) 0 = l → l ≠ 0 →
+      (ls.foldl (setL T) R).getD (T.idxOf l) 0 = l
+  | [], R, _, h, _ => h
+  | x :: xs, R, hx, h, h0 => by
+    simp only [List.foldl_cons]
+    apply foldl_setL_keep T l hl xs _ (fun y hy => hx y (List.mem_cons_of_mem _ hy)) _ h0
+    by_cases e : T.idxOf x = T.idxOf l
+    · have : x = l := idxOf_inj (hx x List.mem_cons_self) hl e
+      subst this
+      simp only [setL, List.getD_eq_getElem?_getD, List.getElem?_set_self'] at h ⊢
+      cases hg : R[T.idxOf x]? <;> simp_all
+    · simp only [setL, List.getD_eq_getElem?_getD] at h ⊢
+      rw [List.getElem?_set_ne e]
+      exact h
+
+theorem foldl_setL_get (T : List Lbl) (l : Lbl) (h0 : l ≠ 0) :
+    ∀ (ls : List Lbl) (R : List Lbl), (∀ x ∈ ls, x ∈ T) → R.length = T.length → l ∈ ls →
+      (ls.foldl (setL T) R).getD (T.idxOf l) 0 = l
+  | [], _, _, _, h => by simp at h
+  | x :: xs, R, hx, hR, h => by
+    have hxT := hx x List.mem_cons_self
+    have hxs : ∀ y ∈ xs, y ∈ T := fun y hy => hx y (List.mem_cons_of_mem _ hy)
+    simp only [List.foldl_cons]
+    by_cases e : x = l
+    · subst e
+      apply foldl_setL_keep T x hxT xs _ hxs _ h0
+      have : T.idxOf x < R.length := by rw [hR]; exact List.idxOf_lt_length_of_mem hxT
+      simp [setL, List.getD_eq_getElem?_getD, List.getElem?_set_self this]
+    · have : l ∈ xs := by
+        rcases List.mem_cons.mp h with h | h
+        · exact absurd h.symm e
+        · exact h
+      exact foldl_setL_get T l h0 xs _ hxs (by simp [setL, hR]) this
+
+mutual
+theorem fixItem_raw (T Rf : List Lbl) : (it : Item) →
+    (∀ o ∈ ptrTargetsItem it, Rf.getD (T.idxOf o) 0 = o) → fixItem Rf (rawItem T it) = it
+  | .prim _ _, _ => by simp [rawItem, fixItem]
+  | .raw _, _ => by simp [rawItem, fixItem]
+  | .str _, _ => by simp [rawItem, fixItem]
+  | .position _, _ => by simp [rawItem, fixItem]
+  | .ptr safe o, h => by
+    by_cases ho : o = 0
+    · simp [rawItem, fixItem, ho]
+    · have := h o (by simp [ptrTargetsItem, ho])
+      simp only [List.getD_eq_getElem?_getD] at this
+      simp [rawItem, fixItem, ho, idxIn, this]
+  | .object o cls body, h => by
+    simp only [rawItem, fixItem]
+    rw [fixItems_raw T Rf body (by simpa [ptrTargetsItem] using h)]
+theorem fixItems_raw (T Rf : List Lbl) : (w : List Item) →
+    (∀ o ∈ ptrTargets w, Rf.getD (T.idxOf o) 0 = o) → fixItems Rf (rawItems T w) = w
+  | [], _ => by simp [rawItems, fixItems]
+  | i :: is, h => by
+    simp only [ptrTargets, List.mem_append] at h
+    simp only [rawItems, fixItems]
+    rw [fixItem_raw T Rf i (fun o ho => h o (Or.inl ho)), fixItems_raw T Rf is (fun o ho => h o (Or.inr ho))]
+end
+
+mutual
+theorem regLabelsItem_subset : (it : Item) → (t : List Lbl) → ∀ l ∈ regLabelsItem it, l ∈ (encItem t it).1
+  | .prim _ _, _ => by simp [regLabelsItem]
+  | .raw _, _ => by simp [regLabelsItem]
+  | .str _, _ => by simp [regLabelsItem]
+  | .ptr _ _, _ => by simp [regLabelsItem]
+  | .position o, t => by
+    simp only [regLabelsItem, encItem, List.mem_singleton]
+    rintro l rfl; exact mem_addUnique t l
+  | .object o _ body, t => by
+    simp only [regLabelsItem, encItem, List.mem_append, List.mem_singleton]
+    rintro l (h | rfl)
+    · exact regLabels_subset body _ l h
+    · exact (encItems_prefix body _).subset (mem_addUnique t l)
+theorem regLabels_subset : (w : List Item) → (t : List Lbl) → ∀ l ∈ regLabels w, l ∈ (encItems t w).1
+  | [], _ => by simp [regLabels]
+  | i :: is, t => by
+    simp only [regLabels, encItems, List.mem_append]
+    rintro l (h | h)
+    · exact (encItems_prefix is _).subset (regLabelsItem_subset i t l h)
+    · exact regLabels_subset is _ l h
+end
+
+mutual
+theorem newFixItem_bounds (T : List Lbl) : (it : Item) → (t : List Lbl) → (encItem t it).1 <+: T →
+    ∀ i ∈ newFixItem T it, 1 ≤ i ∧ i ≤ T.length
+  | .prim _ _, _, _ => by simp [newFixItem]
+  | .raw _, _, _ => by simp [newFixItem]
+  | .str _, _, _ => by simp [newFixItem]
+  | .position _, _, _ => by simp [newFixItem]
+  | .ptr _ o, t, hp => by
+    by_cases ho : o = 0
+    · simp [newFixItem, ho]
+    · simp only [encItem, ho, ↓reduceIte] at hp
+      obtain ⟨_, e2, e3, _⟩ := idx_bounds hp
+      simp only [newFixItem, ho, ↓reduceIte, List.mem_singleton]
+      rintro i rfl; exact ⟨e2, e3⟩
+  | .object o _ body, t, hp => by
+    simp only [encItem] at hp
+    simp only [newFixItem]
+    exact newFix_bounds T body _ hp
+theorem newFix_bounds (T : List Lbl) : (w : List Item) → (t : List Lbl) → (encItems t w).1 <+: T →
+    ∀ i ∈ newFix T w, 1 ≤ i ∧ i ≤ T.length
+  | [], _, _ => by simp [newFix]
+  | i :: is, t, hp => by
+    simp only [encItems] at hp
+    simp only [newFix, List.mem_append]
+    rintro j (h | h)
+    · exact newFix_bounds T is _ hp j h
+    · exact newFixItem_bounds T i t ((encItems_prefix is _).trans hp) j h
+end
+
+theorem addUnique_length_le (t : List Lbl) (o : Lbl) : (addUnique t o).1.length ≤ t.length + 1 := by
+  unfold addUnique; split <;> simp
+
+mutual
+/-- every entry of the object table costs at least one 8-byte record -/
+theorem encItem_table_le : (it : Item) → (t : List Lbl) →
+    (encItem t it).1.length * 8 ≤ t.length * 8 + (encItem t it).2.length
+  | .prim _ _, _ => by simp [encItem]
+  | .raw _, _ => by simp [encItem]
+  | .str _, _ => by simp [encItem]
+  | .ptr _ o, t => by
+    have := addUnique_length_le t o
+    simp only [encItem]; split <;> simp <;> omega
+  | .position o, t => by
+    have := addUnique_length_le t o
+    simp [encItem, Prim.width]; omega
+  | .object o _ body, t => by
+    have h1 := addUnique_length_le t o
+    have h2 := encItems_table_le body (addUnique t o).1
+    simp only [encItem, List.length_append, tagB_length, le_length]
+    omega
+theorem encItems_table_le : (w : List Item) → (t : List Lbl) →
+    (encItems t w).1.length * 8 ≤ t.length * 8 + (encItems t w).2.length
+  | [], _ => by simp [encItems]
+  | i :: is, t => by
+    have h1 := encItem_table_le i t
+    have h2 := encItems_table_le is (encItem t i).1
+    simp only [encItems, List.length_append]
+    omega
+end
+
+end Morfuse.Archive
+
+namespace Morfuse.Archive
+
+theorem archiveVersion_lt : archiveVersion < 256 ^ 2 := by decide
+
+theorem encHeader_length (info : Info) (N : Nat) :
+    (encHeader info N).length = info.header.length + 6 + 6 + (encStr info.name).length + 8 := by
+  simp [encHeader, Prim.width]; omega
+
+theorem readHeader_ok (cfg : Cfg) (info : Info) (N : Nat) (body : Bytes)
+    (hv : info.version < 65536) (hN : N < 2 ^ 32) (hNa : N * 8 < cfg.allocLimit) (hb : 8 * N ≤ body.length)
+    (hna : strAlloc info.name.length < cfg.allocLimit) (hnl : info.name.length < 2 ^ 64) :
+    readHeader cfg info (RS.init (encHeader info N ++ body)) =
+      .ok () ⟨body, (encHeader info N).length, true, List.replicate N 0, []⟩ := by
+  have hav := archiveVersion_lt
+  simp only [readHeader, RS.init, encHeader, List.append_assoc]
+  rw [readN_ok cfg info.header _ none 0 [] [] info.header.length rfl]
+  simp only [Res.bind, ne_eq, not_true_eq_false, ↓reduceIte]
+  rw [readPrim_ok cfg .u16 archiveVersion (by simpa [Prim.width] using hav)]
+  simp only [Res.bind]
+  rw [readPrim_ok cfg .u16 info.version (by simpa [Prim.width] using hv)]
+  simp only [Res.bind, bne_self_eq_false, Bool.or_self, Bool.and_self, ite_self, Bool.false_eq_true, ↓reduceIte]
+  rw [readStr_ok cfg info.name info.name _ _ [] [] hnl hna
+    (fun h => List.eq_nil_of_length_eq_zero h)]
+  simp only [Res.bind]
+  rw [readPrim_ok cfg .u32 N (by simpa [Prim.width] using hN)]
+  have hlg : lenGe body (8 * N) = true := by rw [lenGe_iff]; exact hb
+  have hna2 : ¬ (N * 8 ≥ cfg.allocLimit) := by omega
+  simp [Res.bind, hlg, hna2, Prim.width]
+  omega
+
+/-- hypotheses of the round trip -/
+structure WF (cfg : Cfg) (classes : List Bytes) (info : Info) (w : List Item) : Prop where
+  /-- values fit their width, strings can be allocated, classes resolve -/
+  items : WFItems cfg classes w
+  /-- every non-null pointer target is registered somewhere in the sequence -/
+  targets : ∀ o ∈ ptrTargets w, o ∈ regLabels w
+  /-- no registered object is the null pointer -/
+  nonnull : ∀ o ∈ ptrTargets w, o ≠ 0
+  /-- fewer objects than `ARCHIVE_NULL_POINTER` -/
+  count : (encItems [] w).1.length < nullIdx
+  /-- the object table can be allocated -/
+  table : (encItems [] w).1.length * 8 < cfg.allocLimit
+  /-- stream offsets fit `std::streamsize` -/
+  size : (encode info w).length < 2 ^ 63
+  version : info.version < 65536
+  name : strAlloc info.name.length < cfg.allocLimit
+
+mutual
+theorem ptrTargetsItem_ne_zero : (it : Item) → ∀ o ∈ ptrTargetsItem it, o ≠ 0
+  | .prim _ _ => by simp [ptrTargetsItem]
+  | .raw _ => by simp [ptrTargetsItem]
+  | .str _ => by simp [ptrTargetsItem]
+  | .position _ => by simp [ptrTargetsItem]
+  | .ptr _ o => by
+    by_cases ho : o = 0 <;> simp [ptrTargetsItem, ho]
+  | .object _ _ body => by simpa [ptrTargetsItem] using ptrTargets_ne_zero body
+theorem ptrTargets_ne_zero : (w : List Item) → ∀ o ∈ ptrTargets w, o ≠ 0
+  | [] => by simp [ptrTargets]
+  | i :: is => by
+    simp only [ptrTargets, List.mem_append]
+    rintro o (h | h)
+    · exact ptrTargetsItem_ne_zero i o h
+    · exact ptrTargets_ne_zero is o h
+end
+
+/-- the full run of the reader on an honest archive: result and final state -/
+theorem readAll_encode (cfg : Cfg) (classes : List Bytes) (info : Info) (w : List Item)
+    (hw : WF cfg classes info w) :
+    readAll cfg classes info (schemaOf w) (encode info w) =
+      .ok (rawItems (encItems [] w).1 w)
+        ⟨[], (encode info w).length, true,
+          (regLabels w).foldl (setL (encItems [] w).1) (List.replicate (encItems [] w).1.length 0),
+          newFix (encItems [] w).1 w ++ []⟩ := by
+  have hsz := hw.size
+  have hnull := nullIdx_lt
+  have htl := encItems_table_le w []
+  simp only [encode, List.length_append] at hsz
+  have hnl : info.name.length < 2 ^ 64 := by
+    rw [encHeader_length, encStr_length] at hsz; split at hsz <;> omega
+  simp only [readAll, encode]
+  rw [readHeader_ok cfg info _ _ hw.version (by have := hw.count; omega) hw.table
+    (by simp at htl; omega) hw.name hnl]
+  simp only [Res.bind]
+  have := readItems_enc cfg classes (encItems [] w).1 hw.count hw.table w [] [] (encHeader info (encItems [] w).1.length).length
+    (List.replicate (encItems [] w).1.length 0) [] (List.prefix_refl _) hw.items (by simp) (by omega)
+  simp only [List.append_nil] at this ⊢
+  rw [this]
+  simp
+
+end Morfuse.Archive
+
+namespace Morfuse.Archive
+
+theorem decode_encode (cfg : Cfg) (classes : List Bytes) (info : Info) (w : List Item)
+    (hw : WF cfg classes info w) :
+    decode cfg classes info (schemaOf w) (encode info w) = .ok w := by
+  unfold decode
+  rw [readAll_encode cfg classes info w hw]
+  have hc : closeOk ⟨[], (encode info w).length, true,
+      (regLabels w).foldl (setL (encItems [] w).1) (List.replicate (encItems [] w).1.length 0),
+      newFix (encItems [] w).1 w ++ []⟩ = true := by
+    simp only [closeOk, List.append_nil, List.all_eq_true, decide_eq_true_eq, foldl_setL_length,
+      List.length_replicate]
+    exact newFix_bounds _ w [] (List.prefix_refl _)
+  simp only [hc, ↓reduceIte]
+  congr 1
+  apply fixItems_raw
+  intro o ho
+  exact foldl_setL_get _ o (hw.nonnull o ho) _ _ (regLabels_subset w []) (by simp) (hw.targets o ho)
+
+end Morfuse.Archive
